@@ -2,10 +2,11 @@
 # Runs each seeded change the prescribed way: apply it to /repo, run the property's quick check, undo it straight away.
 cd /verif || exit 2
 for d in seeded/C*/; do
-  id=$(basename $d)
-  git -C /repo apply /verif/$d/patch.diff || { echo "$id APPLY-FAILED"; continue; }
+  name=$(basename $d)
+  id=$(echo $name | cut -c1-3)
+  git -C /repo apply /verif/$d/patch.diff || { echo "$name APPLY-FAILED"; continue; }
   out=$(VERIF_SEED=${1:-1} ./check $id quick 2>&1); rc=$?
   git -C /repo checkout -- .
-  echo "$id rc=$rc $(echo "$out" | grep -E 'clause=' | head -1 | cut -c1-160)"
+  echo "$name check=$id rc=$rc $(echo "$out" | grep -E 'clause=' | head -1 | cut -c1-160)"
 done
 git -C /repo status --short | head -3
